@@ -531,3 +531,57 @@ Section RelLaws.
     Qed.
   End Laws.
 End RelLaws.
+
+(** ---- the premises are satisfiable -------------------------------------------------------------
+    A model with points = nat in which nothing crosses: ContainsPoint of a normal loop is its
+    originInside flag, the rectangle prefilters are the decisions themselves, and [0;1;2] is a
+    valid loop. All interface laws, the prefilter premises and H_JORDAN_side hold in it. *)
+Section Satisfiable.
+  Let occw := fun a b c (_ : nat) => Nat.eqb a b || Nat.eqb b c.
+  Let cs := fun (_ _ _ _ : nat) => DoNotCross.
+  Let cp := fun (L : loop nat) (_ : nat) =>
+    match l_kind nat L with KFull => true | KEmpty => false | KNormal => l_oi nat L end.
+  Let sub := contains_core nat Nat.eqb occw cs cp.
+  Let bi := intersects_core nat Nat.eqb occw cs cp.
+  Let uf := fun (_ _ : loop nat) => true.
+
+  Example premises_satisfiable :
+    (forall a b, Nat.eqb a b = true <-> a = b) /\
+    (forall a b c d, cs a b c d = cs c d a b) /\ (forall a b c d, cs b a c d = cs a b c d) /\
+    (forall a c o, occw a a c o = true) /\
+    (forall a b o, a <> b -> a <> o -> b <> o -> occw a b a o = false) /\
+    (forall L p, cp (invert nat 0 0 L) p = negb (cp L p)) /\
+    (forall L p, is_full nat L = true -> cp L p = true) /\
+    (forall L p, is_empty nat L = true -> cp L p = false) /\
+    H_SUBREGION_sound nat Nat.eqb occw cs cp sub /\
+    H_SUBREGION_v0 nat Nat.eqb cs cp sub uf /\
+    H_LATBOUND_sound nat Nat.eqb occw cs cp bi /\
+    H_LATBOUND_empty nat bi /\
+    H_JORDAN_side nat Nat.eqb cs cp /\
+    valid nat cs (mk_loop nat KNormal [0; 1; 2] false).
+  Proof.
+    repeat split; try reflexivity.
+    - apply Nat.eqb_eq.
+    - apply Nat.eqb_eq.
+    - intros. unfold occw. now rewrite Nat.eqb_refl.
+    - intros a b o H _ _. unfold occw.
+      assert (Nat.eqb a b = false) by now apply Nat.eqb_neq.
+      assert (Nat.eqb b a = false) by (apply Nat.eqb_neq; congruence). now rewrite H0, H1.
+    - intros L p. unfold cp, invert. now destruct (l_kind nat L).
+    - intros L p. unfold cp, is_full. now destruct (l_kind nat L).
+    - intros L p. unfold cp, is_empty. now destruct (l_kind nat L).
+    - intros A B H. exact H.
+    - intros A B NA NB _ FS CA. unfold sub, contains_core. unfold normal in NA, NB. rewrite NA, NB. simpl.
+      unfold has_crossing_contains, edge_cross. unfold found_shared in FS.
+      destruct (shared nat Nat.eqb A B) eqn:E; [|discriminate]. simpl.
+      assert (EC : existsb (fun _ : nat * nat => existsb (fun _ : nat * nat => false) (edges nat B)) (edges nat A) = false).
+      { apply not_true_is_false. intro H. apply existsb_exists in H. destruct H as [ea [_ H]].
+        apply existsb_exists in H. destruct H as [eb [_ H]]. discriminate H. }
+      rewrite EC. simpl. unfold found_shared. rewrite E. simpl. rewrite CA. simpl.
+      destruct (contains_v0 nat cp B A); [right; split; reflexivity|left; reflexivity].
+    - intros A B H. exact H.
+    - intros A B [H|H]; unfold bi, intersects_core; rewrite H; [reflexivity|]. now rewrite orb_true_r.
+    - discriminate.
+    - repeat constructor; simpl; intuition discriminate.
+  Qed.
+End Satisfiable.
